@@ -241,7 +241,9 @@ def tsv_tolerance(x):
     ax = np.abs(x)
     with np.errstate(all="ignore"):
         e = np.where(ax > 0, np.floor(np.log10(np.where(ax > 0, ax, 1.0))), 0.0)
-    return 0.5000001e-10 * 10.0 ** e
+    # half a unit of the last printed digit, plus the representation error of the two
+    # doubles involved (an exact tie, e.g. ...238995 printed as ...23900, is legitimate)
+    return 0.5000001e-10 * 10.0 ** e + 4 * np.spacing(ax)
 
 
 def check_tsv(ctx, path, ds_feats, expected, desc):
